@@ -162,7 +162,11 @@ def option_walks_items(dot_path: str):
 
 def ring_programs(dump_path: str):
     progs = list(leaf_programs(dump_path, var="prog", is_leaf=leaf_has_op))
-    return progs, {}
+    ops = {}
+    for p in progs:
+        for ins in p:
+            ops[ins["op"]] = ops.get(ins["op"], 0) + 1
+    return progs, {"instructions": ops}
 
 
 # ------------------------------------------------------------ C05 division pairs
@@ -203,12 +207,13 @@ def run_divide_pair(pair, tid: str, prop: str, variant: int = 0) -> dict:
 
 # ------------------------------------------------------- generic vector models
 def vectors(dump_path: str, var="vec"):
-    out = []
+    out, kinds = [], {}
     for st in tlaval.parse_dump(dump_path, variables={var}):
         v = st.get(var)
         if isinstance(v, dict) and v.get("kind") != "none":
             out.append(v)
-    return out, {"vectors": len(out)}
+            kinds[v["kind"]] = kinds.get(v["kind"], 0) + 1
+    return out, {"vectors": len(out), "vector_kinds": kinds}
 
 
 def _q(q):
@@ -390,4 +395,122 @@ def run_text_vector(vec, tid: str, prop: str, variant: int = 0) -> dict:
         rec.do("text", [a], keep=False, fn=fn, lexerror="", terms=[], text="")
     reset_options()
     rec.meta["source"] = "MC_Text"
+    return rec.to_json()
+
+
+def dtype_vectors(dump_path: str):
+    out, _ = vectors(dump_path)
+    out = [v for v in out if v["kind"] == "pair"]
+    return out, {"vectors": len(out)}
+
+
+def run_dtype_vector(vec, tid: str, prop: str, variant: int = 0) -> dict:
+    """One ordered dtype pair (a, b): model-vs-numpy binding events, construction, astype, + - *."""
+    import random
+    import numpy
+    from .drivers import dtype as D
+    from .project import num
+    reset_options()
+    rec = Recorder(tid, prop)
+    rng = random.Random(variant)
+    a, b = vec["a"], vec["b"]
+    rec.do("dtype", [], keep=False, fn="dtype_pair", a=a, b=b)
+    vals = D.castable_values(a, b)
+    rec.do("dtype", [], keep=False, fn="cast", frm=a, to=b, vals=[num(numpy.dtype(a).type(v).item()) for v in vals])
+    shape = rng.choice([(), (2,), (2, 2)])
+    x = rec.new(D.poly_of(rng, a, shape, (0, 1)))
+    y = rec.new(D.poly_of(rng, b, rng.choice([shape, ()]), (0, 1)))
+    if not (D.kind_of(a) in "fc" and D.kind_of(b) == "u"):
+        rec.do("dtype", [x], keep=False, fn="construct", how=("astype", "polynomial", "aspolynomial", "from_attributes")[variant % 4], dtype=b)
+    for op in ("add", "sub", "mul"):
+        if op == "sub" and a == "bool" and b == "bool":
+            continue
+        rec.do("dtype", [x, y], keep=False, fn="arith", op=op)
+    rec.do("dtype", [x, x], keep=False, fn="arith", op="sub" if a != "bool" else "add")      # every term cancels
+    rec.meta["source"] = "MC_DType"
+    return rec.to_json()
+
+
+def key_vectors(dump_path: str):
+    out, _ = vectors(dump_path)
+    out = [v for v in out if v["kind"] == "exp"]
+    return out, {"vectors": len(out)}
+
+
+def run_key_vector(vec, tid: str, prop: str, variant: int = 0) -> dict:
+    from .project import num
+    reset_options()
+    rec = Recorder(tid, prop)
+    e = vec["e"]
+    coef = (1, -2, 3)[variant % 3]
+    r = rec.do("from_attributes", [], rows=[[e]], coefs=[[num(coef)]], shape=[], names=[0], rc="none", rn="true",
+               via="function", dtype="int64", bigexp=e)
+    if r:
+        rec.do("rebuild", r, keep=False, via=("raw", "attributes", "todict", "raw_polynomial")[variant % 4], bigexp=e)
+        rec.do("copy", r, keep=False, how="pickle", protocol=variant % 6, bigexp=e)
+        q = rec.do("from_attributes", [], rows=[[1 + variant % 7]], coefs=[[num(2)]], shape=[], names=[0], rc="none", rn="true",
+                   via="function", dtype="int64", bigexp=1 + variant % 7)
+        if q:
+            rec.do("arith", [r[0], q[0]], keep=False, op="mul", spelling=("operator", "numpy", "numpoly")[variant % 3],
+                   bigexp=e + 1 + variant % 7)
+    rec.meta["source"] = "MC_Keys"
+    return rec.to_json()
+
+
+def algebra_vectors(dump_path: str):
+    out, _ = vectors(dump_path)
+    out = [v for v in out if v["kind"] == "pair"]
+    return out, {"vectors": len(out)}
+
+
+def run_algebra_vector(vec, tid: str, prop: str, variant: int = 0) -> dict:
+    """MC_Algebra pairs on derivative / gradient / hessian (C06) or call (C02)."""
+    import numpy
+    reset_options()
+    rec = Recorder(tid, prop)
+    a = rec.new(_rep_poly(vec["a"]))
+    b = rec.new(_rep_poly(vec["b"]))
+    if prop == "C06":
+        kw = {"retain_names": bool(variant % 2), "retain_coefficients": bool((variant // 2) % 2)}
+        rec.do("set_options", [], keep=False, kw=kw, bad=[], prop="C14")
+        prod = rec.do("arith", [a, b], op="mul", spelling="operator", prop="C01")
+        for target in [a] + prod[:1]:
+            for j in (0, 1):
+                how = ("index", "name", "poly", "element")[(variant + j) % 4]
+                desig = {"as": "index", "v": j} if how == "index" else {"as": how, "v": "q%d" % j}
+                var = {"kind": "index", "i": j, "id": -1} if how == "index" else {"kind": "name", "i": -1, "id": j}
+                rec.do("deriv", [target], keep=False, fn="derivative", designators=[desig], vars=[var])
+            rec.do("deriv", [target], keep=False, fn="derivative", designators=[{"as": "index", "v": 0}, {"as": "name", "v": "q1"}],
+                   vars=[{"kind": "index", "i": 0, "id": -1}, {"kind": "name", "i": -1, "id": 1}])
+        rec.do("deriv", [a], keep=False, fn=("gradient", "hessian")[variant % 2], vars=[])
+        reset_options()
+    else:
+        x, y = vec["x"], vec["y"]
+        carriers = [lambda v: int(v), lambda v: float(v), lambda v: numpy.int64(v), lambda v: numpy.float32(v),
+                    lambda v: numpy.array(v), lambda v: numpy.int8(v)]
+        cx = rec.new(carriers[variant % 6](x))
+        cy = rec.new(carriers[(variant // 6) % 6](y))
+        prod = rec.do("arith", [a, b], op="mul", spelling="operator", prop="C01")
+        for target in [a] + prod[:1]:
+            forms = [({"pos": [2, 3], "kw": []}, [{"name": 0, "arg": 2, "how": "pos"}, {"name": 1, "arg": 3, "how": "pos"}]),
+                     ({"pos": [2], "kw": [["q1", 3]]}, [{"name": 0, "arg": 2, "how": "pos"}, {"name": 1, "arg": 3, "how": "kw"}]),
+                     ({"pos": [], "kw": [["q0", 2], ["q1", 3]]}, [{"name": 0, "arg": 2, "how": "kw"}, {"name": 1, "arg": 3, "how": "kw"}]),
+                     ({"pos": [0, 3], "kw": []}, [{"name": 1, "arg": 3, "how": "pos"}]),           # None placeholder: partial
+                     ({"pos": [2], "kw": []}, [{"name": 0, "arg": 2, "how": "pos"}])]
+            layout, bind = forms[(variant + (target != a)) % len(forms)]
+            res = rec.do("call", [target, cx, cy], layout=layout, bind=bind, spelling=("call", "function")[variant % 2])
+            if res and len(bind) == 1 and hasattr(rec.obj(res[0]), "names"):
+                # finish the staged evaluation
+                rest = 1 if bind[0]["name"] == 0 else 0
+                names = list(rec.obj(res[0]).names)
+                if "q%d" % rest in names:
+                    arg = cy if rest == 1 else cx
+                    rec.do("call", [res[0], arg], keep=False, layout={"pos": [], "kw": [["q%d" % rest, 2]]},
+                           bind=[{"name": rest, "arg": 2, "how": "kw"}], spelling="call")
+        # swap q0 <-> q1 by polynomial arguments
+        q0 = rec.new(build_poly({"shape": [], "names": [0], "rows": [[1]], "coefs": [[1]], "dtype": "int64"}))
+        q1 = rec.new(build_poly({"shape": [], "names": [1], "rows": [[1]], "coefs": [[1]], "dtype": "int64"}))
+        rec.do("call", [a, q1, q0], keep=False, layout={"pos": [2, 3], "kw": []},
+               bind=[{"name": 0, "arg": 2, "how": "pos"}, {"name": 1, "arg": 3, "how": "pos"}], spelling="call")
+    rec.meta["source"] = "MC_Algebra"
     return rec.to_json()
